@@ -20,12 +20,59 @@ def x_ng(report):
     if not names <= allowed | {""}:
         raise Unrecognised("from_reader", f"allocation sized by an unmodelled variable: {sorted(names - allowed)}")
     zero = re.search(r"let tablesize: usize = rdr\.read_u64::<LittleEndian>\(\)\? as usize; if tablesize == 0 \{ return Err\(", body) is not None
-    report["outputs"]["ng_reader"] = {"prealloc": pre, "rejects_zero_table": zero}
+    notab = re.search(r"if n_tables == 0 \{ return Err\(", body) is not None
+    report["outputs"]["ng_reader"] = {"prealloc": pre, "rejects_zero_table": zero, "rejects_no_tables": notab}
     return (f"\n/-- `Nodegraph::from_reader`: is the table buffer pre-allocated from the size field? -/\n"
             f"def ngPrealloc : Bool := {'true' if pre else 'false'}\n"
             f"/-- does it refuse a table of size zero (every lookup takes the hash modulo the size)? -/\n"
-            f"def ngRejectsZeroTable : Bool := {'true' if zero else 'false'}\n")
+            f"def ngRejectsZeroTable : Bool := {'true' if zero else 'false'}\n"
+            f"/-- does it refuse a file that declares no tables at all (expected_collisions takes a minimum over the tables)? -/\n"
+            f"def ngRejectsNoTables : Bool := {'true' if notab else 'false'}\n")
 
 
-EXTRACTORS = [("ng_reader", x_ng)]
+def x_zipload(report):
+    """C20: does `<ZipStorage as Storage>::load` size its output buffer from the zip member's DECLARED uncompressed size?"""
+    src = strip_rust_comments(read("src/core/src/storage/mod.rs"))
+    m = re.search(r"impl Storage for ZipStorage \{", src)
+    if not m:
+        raise Unrecognised("ZipStorage::load", "impl Storage for ZipStorage not found")
+    body = norm(rust_fn_body(src[m.end():], "load"))
+    if ".read(entry)" not in body or "read_to_end(&mut contents)" not in body:
+        raise Unrecognised("ZipStorage::load", "no longer reads the entry through read_to_end into `contents`")
+    fresh = re.search(r"let mut contents = Vec::new\(\);", body) is not None
+    pre = re.search(r"let mut contents = Vec::with_capacity\(\s*entry\.size[^)]*\);", body) is not None
+    if fresh == pre:
+        raise Unrecognised("ZipStorage::load", "cannot tell how the output buffer is allocated: " + body[-200:])
+    others = [x for x in re.findall(r"(?:with_capacity|vec!\[[^\]]*;)\s*\(?([a-z_.]+)", body) if "entry" in x and not pre]
+    if others:
+        raise Unrecognised("ZipStorage::load", f"allocation sized by a field of the zip entry: {others}")
+    report["outputs"]["zip_load"] = {"prealloc_from_declared_size": pre}
+    return (f"\n/-- `<ZipStorage as Storage>::load`: is the output buffer pre-allocated from the member's DECLARED uncompressed size? -/\n"
+            f"def zipLoadPrealloc : Bool := {'true' if pre else 'false'}\n")
+
+
+def x_hll(report):
+    """C20: HyperLogLog::from_reader — are p, q and the registers checked before they are used as shift count, allocation
+    size and index?"""
+    src = strip_rust_comments(read("src/core/src/sketch/hyperloglog/mod.rs"))
+    body = norm(rust_fn_body(src, "from_reader"))
+    for need in ("let p = rdr.read_u8()? as usize;", "let q = rdr.read_u8()? as usize;", "let ksize = rdr.read_u8()? as usize;",
+                 "let n_registers = 1 << p;", "let mut registers = vec![0u8; n_registers];", "rdr.read_exact(&mut registers)?;"):
+        if need not in body:
+            raise Unrecognised("HyperLogLog::from_reader", "expected `" + need + "`")
+    checks_p = re.search(r"if !\(4\.\.=18\)\.contains\(&p\) \|\| q != 64 - p \{ return Err\(", body) is not None
+    checks_r = re.search(r"if registers\.iter\(\)\.any\(\|&r\| r as usize > q \+ 1\) \{ return Err\(", body) is not None
+    if body.index("let n_registers = 1 << p;") < (body.index("contains(&p)") if checks_p else -1):
+        raise Unrecognised("HyperLogLog::from_reader", "p is checked after it has been used")
+    others = len(re.findall(r"\bif\b", body)) - int(checks_p) - int(checks_r)
+    if others:
+        raise Unrecognised("HyperLogLog::from_reader", "unmodelled conditional in the reader")
+    report["outputs"]["hll_reader"] = {"checks_p_q": checks_p, "checks_registers": checks_r}
+    return (f"\n/-- `HyperLogLog::from_reader`: are p (4..=18) and q (= 64 - p) checked before the registers are allocated; are the "
+            f"registers checked against q + 1? -/\n"
+            f"def hllChecksHeader : Bool := {'true' if checks_p else 'false'}\n"
+            f"def hllChecksRegisters : Bool := {'true' if checks_r else 'false'}\n")
+
+
+EXTRACTORS = [("ng_reader", x_ng), ("zip_load", x_zipload), ("hll_reader", x_hll)]
 SERVES = ["C20"]
